@@ -6,6 +6,14 @@ import shutil
 from . import build, core
 
 
+MAX_HANGS = 3        # per run_batch call
+BATCH_CPU_S = 40     # CPU limit of one frontdump process (a clean batch of 400 sources needs a few seconds)
+
+
+def skipped(r):
+    return r["crash"] is not None and r["crash"][0] == "skipped"
+
+
 def run_batch(mode, sources, flavour="asan", per_proc=400, timeout=300, ext=".bloch"):
     """Run frontdump <mode> over many sources.  Returns a list (same order) of dicts:
     {lines:[parsed json or raw str...], crash: None|classification, stderr}."""
@@ -39,17 +47,27 @@ def run_batch(mode, sources, flavour="asan", per_proc=400, timeout=300, ext=".bl
                     out[cur]["lines"].append(line)
         return out
 
+    hangs = [0]
+
     def one(chunk):
         todo = list(chunk)
         while todo:
+            if hangs[0] >= MAX_HANGS:
+                # the tree under test hangs on input after input: the hangs already found are reported
+                # by the caller; the rest of the batch is not judged (each hang costs a CPU limit)
+                for i in todo:
+                    results[i] = dict(lines=[], crash=("skipped", "after %d hangs" % hangs[0]), stderr="")
+                break
             lst = os.path.join(root, "list-%d.txt" % todo[0])
             with open(lst, "w") as f:
                 f.write("\n".join(paths[i] for i in todo) + "\n")
                 # a second entry keeps frontdump in batch (BEGIN/END) mode for single files
                 if len(todo) == 1:
                     f.write(paths[todo[0]] + "\n")
-            r = core.run([binary, mode, "--list", lst], timeout=timeout)
+            r = core.run([binary, mode, "--list", lst], timeout=timeout, cpu_s=BATCH_CPU_S + int(0.06 * per_proc), retry_timeout=False)
             out = parse_out(r.stdout)
+            if r.classify()[0] == "timeout":
+                hangs[0] += 1
             progressed = False
             nxt = []
             culprit_assigned = False
